@@ -222,6 +222,10 @@ func (c13) Run(c *run.Ctx, phase, idx int) {
 	c.Current(func() string {
 		return fmt.Sprintf("concurrent read-only operations on a shared %s (N=%d, GOMAXPROCS=%d)", T, N, procs)
 	})
+	// the goroutines under test must not tick (an atomic in the harness would
+	// be a happens-before edge between them); instead the whole concurrent
+	// part gets a CPU allowance in proportion to what it has to render
+	c.Allow(int64(len(seq)+4096) * int64(N*rounds) * 2000)
 	for g := 0; g < N; g++ {
 		wg.Add(1)
 		go func(g int) {
